@@ -36,6 +36,8 @@ def scenarios(tier, seed):
         add("mll", n=3, lik="fixed", mean="linear", priors=False, batch=0)
         add("mll", n=1, lik="gaussian", mean="constant", priors=True, batch=0)
         add("mll", n=2, lik="gaussian", mean="constant", priors="shared", batch=0)
+        add("mll", n=2, lik="gaussian", mean="constant", priors=True, batch=0, explicit_chol=True)
+        add("mll", n=3, lik="fixed_learn", mean="zero", priors=False, batch=0, explicit_chol=True)
         add("loo", n=3, lik="gaussian", priors=True)
         add("loo", n=2, lik="fixed_learn", priors=False)
         add("mll", n=2, lik="fixed", mean="constant", priors=False, batch=0, call_noise=True)
@@ -57,6 +59,9 @@ def scenarios(tier, seed):
             add("mll", n=3, lik=lk, mean="constant", priors=False, batch=0, call_noise=True)
             add("mll", n=2, lik=lk, mean="constant", priors=False, batch=2, call_noise=True)
         add("mll", n=3, lik="gaussian", mean="constant", priors="shared", batch=0)
+        for lk in ("gaussian", "fixed", "fixed_learn"):
+            add("mll", n=3, lik=lk, mean="constant", priors=(lk == "gaussian"), batch=0, explicit_chol=True)
+        add("mll", n=2, lik="gaussian", mean="constant", priors=False, batch=2, explicit_chol=True)
         add("loo", n=2, lik="gaussian", priors="shared")
     add("multitask_priors", rank=1)
     add("multitask_priors", rank=0)
@@ -150,7 +155,9 @@ def _sum_prior(terms, b, bs):
     return tot
 
 
-def mll(S, n, lik, mean, priors, batch, call_noise=False):
+def mll(S, n, lik, mean, priors, batch, call_noise=False, explicit_chol=False):
+    """explicit_chol: settings.fast_computations(log_prob=False) - the density goes through the cached dense Cholesky factor of the
+    marginal (torch's MultivariateNormal.log_prob) instead of LinearOperator.inv_quad_logdet"""
     bs = (batch,) if batch else ()
     x, y, Y, likelihood, model, table, Gs, Gc = _build(S, n, lik, mean, priors, bs)
     table.requires_grad_(True)
@@ -166,9 +173,10 @@ def mll(S, n, lik, mean, priors, batch, call_noise=False):
             nd = nd + as_sym_arr(SH.get(likelihood.second_noise)).reshape(bs + (1,))
         J, K, Sd = _fill_table(S, table.data, Gs, Gc, likelihood, x, n, bs, noise_diag=nd)
         mx = as_sym_arr(SH.get(model.mean_module(x)))
-        loss = mll_mod(model(x), y, **kw)
-        terms = _prior_terms(model, likelihood, bs)
-        (loss.sum() if bs else loss).backward()
+        with gpytorch.settings.fast_computations(log_prob=not explicit_chol):
+            loss = mll_mod(model(x), y, **kw)
+            terms = _prior_terms(model, likelihood, bs)
+            (loss.sum() if bs else loss).backward()
     refs = []
     for b in np.ndindex(*bs):
         G = Gs[b]
